@@ -356,6 +356,11 @@ func runDuet(seed int64, a, b string, keep bool, ms int) []string {
 	dir := MkScratch("vf-duet-")
 	defer os.RemoveAll(dir)
 	opts := klevdb.Options{KeyIndex: true, TimeIndex: true, Rollover: 120, AutoSync: seed%2 == 0}
+	if a == "publish-big" || b == "publish-big" {
+		// records of several pages: an append is not one indivisible step for a concurrent reader of the file
+		opts.Rollover = 1 << 17
+		opts.AutoSync = false
+	}
 	opts.Version.KeepRewriteVersion = keep
 	l, err := klevdb.Open(dir, opts)
 	if err != nil {
@@ -363,12 +368,14 @@ func runDuet(seed int64, a, b string, keep bool, ms int) []string {
 	}
 	defer l.Close()
 	var pc atomic.Int64
-	verifhook.SetPause(func(p string) {
-		if n := pc.Add(1); strings.HasPrefix(p, "delete.") || strings.HasPrefix(p, "publish.rollover.") || strings.HasPrefix(p, "reader.") {
-			time.Sleep(time.Duration(50+n%250) * time.Microsecond)
-		}
-	})
-	defer verifhook.SetPause(nil)
+	if os.Getenv("VF_NO_PAUSE_SLEEPS") == "" {
+		verifhook.SetPause(func(p string) {
+			if n := pc.Add(1); strings.HasPrefix(p, "delete.") || strings.HasPrefix(p, "publish.rollover.") || strings.HasPrefix(p, "reader.") {
+				time.Sleep(time.Duration(50+n%250) * time.Microsecond)
+			}
+		})
+		defer verifhook.SetPause(nil)
+	}
 	var fails []string
 	var mu sync.Mutex
 	fail := func(f string, args ...any) {
@@ -398,6 +405,11 @@ func runDuet(seed int64, a, b string, keep bool, ms int) []string {
 					msgs[j] = klevdb.Message{Time: time.UnixMicro(int64(1000 + i)), Key: winKeys[rnd.Intn(len(winKeys))], Value: []byte(fmt.Sprintf("d%d-%d", i, j))}
 				}
 				if _, err := l.Publish(msgs); err != nil {
+					fail("Publish: %v", err)
+				}
+			case "publish-big":
+				val := make([]byte, []int{3000, 9000, 70000}[rnd.Intn(3)])
+				if _, err := l.Publish([]klevdb.Message{{Time: time.UnixMicro(int64(1000 + i)), Key: winKeys[rnd.Intn(len(winKeys))], Value: val}}); err != nil {
 					fail("Publish: %v", err)
 				}
 			case "delete-head", "delete-any":
@@ -466,7 +478,7 @@ func runDuet(seed int64, a, b string, keep bool, ms int) []string {
 	return fails
 }
 
-var duetPairs = [][2]string{{"delete-head", "publish"}, {"delete-any", "publish"}, {"publish", "gc"}, {"consume", "delete-any"}, {"consume", "gc"},
+var duetPairs = [][2]string{{"delete-head", "publish-big"}, {"consume", "publish-big"}, {"delete-head", "publish"}, {"delete-any", "publish"}, {"publish", "gc"}, {"consume", "delete-any"}, {"consume", "gc"},
 	{"lookups", "publish"}, {"lookups", "delete-any"}, {"admin", "publish"}, {"admin", "delete-head"}, {"gc", "delete-any"}, {"publish", "publish"}, {"delete-any", "delete-head"}}
 
 func TestC08Duets(t *testing.T) {
@@ -495,6 +507,33 @@ func TestC08Duets(t *testing.T) {
 				t.FailNow()
 			}
 		}
+	}
+}
+
+// TestC08BigAppends: appends of several pages against calls that read the head's file (a Delete of the newest message
+// rewrites the head; a Consume reads it). Runs on the plain binary at full speed: what matters is that a reader looks
+// at the file while the kernel is still copying an append into it.
+func TestC08BigAppends(t *testing.T) {
+	st := NewStats("C08")
+	defer st.Write()
+	seed := int64(envInt("VF_SEED", 1))
+	shard := envInt("VF_SHARD", 0)
+	ms := 1200
+	if thoroughTier() {
+		ms = 4000
+	}
+	t.Setenv("VF_NO_PAUSE_SLEEPS", "1")
+	pairs := [][2]string{{"delete-head", "publish-big"}, {"consume", "publish-big"}, {"delete-any", "publish-big"}, {"lookups", "publish-big"}}
+	pr := pairs[shard%len(pairs)]
+	fails := runDuet(seed*4+int64(shard), pr[0], pr[1], shard%2 == 0, ms)
+	st.Eval(1)
+	st.NonTrivialStr(fmt.Sprintf("bigappends|%s|%s|%d", pr[0], pr[1], shard))
+	st.Inc("big_append_duets")
+	if len(fails) > 0 {
+		v := &Violation{Oracle: "history", Msg: fmt.Sprintf("%s || %s with records of several pages: %v", pr[0], pr[1], fails)}
+		path := WriteReplay("C08", "stress", v, map[string]any{"duet": pr, "failures": fails})
+		fmt.Printf("%v\nVIOLATION property=C08 replay=%s\n", v, path)
+		t.FailNow()
 	}
 }
 
